@@ -2,26 +2,31 @@ import LzmaVerif.Model.Xz
 /-!
 # A STRICT reader for the .xz file format (interoperability oracle)
 
-`Model/Xz.lean` models the crate's own reader, which is lax in several places.  This file defines
+`Model/Xz.lean` models the crate's own reader, which is still lax in a few places.  This file defines
 `decodeStrict`, a decoder for a file of one or more streams with stream padding (the behaviour of liblzma's
 stream decoder with `LZMA_CONCATENATED`) that enforces every MUST rule of xz-file-format-1.x the way liblzma
-does.  It re-uses the parsers of `Model/Xz.lean` (they are the strict part) and adds every rule they skip:
+does.  It re-uses the parsers of `Model/Xz.lean` and adds every rule they skip:
 
 * multibyte integers must be in their canonical (shortest) form — liblzma's `lzma_vli_decode` rejects a
   trailing `0x00` byte; the crate's parsers accept it.  Canonical = "re-encoding reproduces the bytes".
   (Block header: `mbStrict`; Index: the Index field must be byte-for-byte `Xz.indexBytes` of its records,
   which is the unique valid serialisation of a record list: indicator, shortest integers, zero padding to a
   multiple of four, CRC32.)
-* Block header: reserved flag bits `0x3C` must be zero; the optional Compressed Size must be non-zero and must
-  equal the real size of the compressed data; the optional Uncompressed Size must equal the real size;
-  LZMA2 must be the last filter and must not appear before the last position.
+* Block header: reserved flag bits `0x3C` must be zero; the optional Compressed Size must be non-zero;
+  LZMA2 must not appear before the last position of the filter chain.
 * Block padding is counted from the start of the BLOCK (the crate counts from the start of the file).
-* Index: the records must equal, in order, (header size + compressed size + check size, uncompressed size) of
-  the blocks actually decoded; Unpadded Size ≥ 5; liblzma's `index_hash` limits (stream size and total
-  uncompressed size ≤ 2^63-1, Index size ≤ 2^34 = LZMA_BACKWARD_SIZE_MAX).
-* Footer: `(Backward Size + 1) * 4` must be the size of the Index field.
+* Index: Unpadded Size ≥ 5; liblzma's `index_hash` limits (stream size and total uncompressed size ≤ 2^63-1,
+  Index size ≤ 2^34 = LZMA_BACKWARD_SIZE_MAX).
+* Footer: `(Backward Size + 1) * 4` must be the REAL size of the Index field (the crate compares it with the size
+  of the canonical re-encoding of the Index).
 
-Rules that `Model/Xz.lean` already enforces and that are inherited unchanged: header magic, stream flags
+Rules that the crate's reader enforces itself since the fix of `XZReader` (`finish_block_record`,
+`parse_index_and_footer`) and that were added here before: the optional Compressed / Uncompressed Size of the
+block header must equal the real sizes; the Index records must equal, in order, (header size + compressed size +
+check size, uncompressed size) of the blocks decoded; Backward Size vs Index.  They are kept (redundantly) in
+`readBlocksS` so that this file remains a self-contained statement of the format.
+
+Rules that `Model/Xz.lean` has always enforced and that are inherited unchanged: header magic, stream flags
 (first byte 0, check id ∈ {0,1,4,10}, anything else rejected), CRC32 of flags / block header / index / footer,
 block header size byte, 1..4 filters, filter ids and property sizes (delta 1, BCJ 0 or 4 with aligned start
 offset, LZMA2 1 with value ≤ 40), last filter LZMA2, zero header padding, zero block padding, check field
@@ -119,7 +124,7 @@ def readBlocksS (total : Nat) :
     | .ok (none, inp') =>
       match parseIndex inp' with
       | .error e => .err e
-      | .ok (irecs, inp'') =>
+      | .ok (irecs, _, inp'') =>
         -- size of the Index field, indicator byte included
         let indexSize := inp.length - inp''.length
         -- canonical form: the field is exactly the serialisation of its records
